@@ -1503,6 +1503,10 @@ func (t *tScreen) parseSgrMouse(buf *bytes.Buffer, evs *[]Event) (bool, bool) {
 			}
 			*evs = append(*evs, t.buildMouseEvent(x, y, btn))
 			return true, true
+
+		default:
+			// not a byte of an SGR mouse report
+			return false, false
 		}
 	}
 
